@@ -302,7 +302,7 @@ def run(ctx):
     ctx.extra['exhaustive_scope'] = f'all cap sequences of length <=5 (caps 1..len+1) over 1-4 candidates: {tot} histories'
     clauses = [
         Clause('C07/history', lambda: st.one_of(direct_history(), direct_history(), pipeline_history(), pipeline_history(), multi_history(),
-                                                multi_history(), prior_history(), large_history()), oracle, quick=900, thorough=30000,
+                                                multi_history(), prior_history(), large_history()), oracle, quick=900, thorough=180000,
                quick_shards=6),
     ]
     drive(ctx, clauses)
